@@ -169,9 +169,14 @@ def run_inline(files: dict, flags=(), *, directory: Path | None = None, keep=Fal
 
             res.n_snapshots = len(state.snapshots)
             changes = []
+            res.per_site = []
             try:
                 for snapshot in state.snapshots.values():
-                    changes += snapshot._changes()
+                    cs = list(snapshot._changes())
+                    changes += cs
+                    node = snapshot._expr.node if snapshot._expr is not None else None
+                    pos = (node.lineno, node.col_offset) if node is not None else None
+                    res.per_site.append((pos, {c.flag for c in cs}))
             except Exception as e:
                 res.collect_error = e
                 res.collect_tb = traceback.format_exc()
@@ -200,6 +205,13 @@ def run_inline(files: dict, flags=(), *, directory: Path | None = None, keep=Fal
         cleanup_caches()
         if not keep and directory is None:
             shutil.rmtree(d, ignore_errors=True)
+
+
+def stub_source(src):
+    """the module with `from inline_snapshot import ...` redirected to the harness stub"""
+    if isinstance(src, bytes):
+        src = src.decode("utf-8")
+    return re.sub(r"^from inline_snapshot import", "from vf_stub import", src, flags=re.M)
 
 
 def run_disabled(files: dict, *, directory: Path | None = None, test_prefix="test"):
